@@ -39,6 +39,45 @@ theorem concat_none_raises {β : Type} (states : List (Option (List β))) (h : n
   have : states.any Option.isNone = true := List.any_eq_true.mpr ⟨none, h, rfl⟩
   simp [this]
 
+/-- **sensitivity collection of one response**: the collected gradient is the concatenation, signal by signal, of the
+    sensitivity the back-propagation left in the signal, and of ZEROS (as many as the signal has entries) for a signal
+    without sensitivity (`None`: the response is not connected to it).  The collection of response `i` is a function of
+    what response `i` left behind only (`runStep` applies `collectSens` to `sens i`), so nothing of another response
+    can leak into it. -/
+theorem sens_collect_spec {β : Type} [OfNat β 0] (st : St β) (sts : List (St β)) (l : List β)
+    (ss : List (Option (List β))) :
+    collectSens (st :: sts) (none :: ss) = List.replicate st.flat.length 0 ++ collectSens sts ss ∧
+    collectSens (st :: sts) (some l :: ss) = l ++ collectSens sts ss ∧
+    collectSens ([] : List (St β)) ss = [] := by
+  refine ⟨?_, rfl, by cases ss <;> rfl⟩
+  show st.flat.map (fun _ => (0 : β)) ++ collectSens sts ss = _
+  rw [List.map_const']
+
+/-- the collected gradient has one entry per design variable when every sensitivity present has the size of its signal -/
+theorem sens_collect_length {β : Type} [OfNat β 0] (sts : List (St β)) (ss : List (Option (List β)))
+    (hlen : ss.length = sts.length)
+    (hsz : ∀ (k : Nat) (l : List β), ss[k]? = some (some l) → ∃ st : St β, sts[k]? = some st ∧ l.length = st.flat.length) :
+    (collectSens sts ss).length = (concat (sts.map St.flat)).length := by
+  induction sts generalizing ss with
+  | nil => cases ss <;> simp [collectSens, concat]
+  | cons st sts ih =>
+    cases ss with
+    | nil => simp at hlen
+    | cons o ss =>
+      have hlen' : ss.length = sts.length := by simpa using hlen
+      have hsz' : ∀ (k : Nat) (l : List β), ss[k]? = some (some l) → ∃ st : St β, sts[k]? = some st ∧ l.length = st.flat.length :=
+        fun k l h => by simpa using hsz (k+1) l (by simpa using h)
+      have := ih ss hlen' hsz'
+      cases o with
+      | none => simp only [collectSens, concat, List.map_cons, List.flatten_cons, List.length_append, List.length_map] at this ⊢; omega
+      | some l =>
+        obtain ⟨st', h1, h2⟩ := hsz 0 l (by simp)
+        have : st' = st := by simpa using h1.symm
+        subst this
+        simp only [collectSens, concat, List.map_cons, List.flatten_cons, List.length_append] at *; omega
+
+example : collectSens [St.scalar (5:ℚ), St.arr [1, 2]] [none, some [7, 8]] = [0, 7, 8] := by decide
+
 section Field
 variable {α : Type} [Field α] [LinearOrder α] [IsStrictOrderedRing α]
 
